@@ -17,7 +17,9 @@ RULE = ("one run = one simulated terminal with mailbox sizes drawn from "
         "ETG.1000.6-conformant strict SDO server, 1-4 transfers of the scenario's class "
         "(direction x expedited/normal/segmented; sub-index or complete access, value "
         "length drawn around every boundary of the class), answers delayed 0..3 polls, "
-        "optionally an EoE fragment or CoE emergency queued ahead of an answer; "
+        "optionally an EoE fragment or CoE emergency queued ahead of an answer; the master is "
+        "an EtherCat or (30 %) a ParallelEtherCat with the counter in the shared lock file; "
+        "15 % of the transfers are preceded by one the terminal aborts (missing object); "
         "real Terminal.sdo_read/sdo_write/mbx_send/mbx_recv over the simulated bus; "
         "distinct = distinct (mailbox sizes, transfers, delays, mail) histories; "
         "non-trivial = at least one transfer exchanged two or more mailbox messages")
